@@ -288,10 +288,21 @@ async fn run_client_h2(stim: &Value, log: &Rec) {
     let (c_io, s_io, _dead) = Shim::pair(sh["cap"].as_u64().unwrap_or(65536) as usize, sh["rq"].as_u64().unwrap_or(65536) as usize,
         sh["wq"].as_u64().unwrap_or(65536) as usize, sh["pend"].as_u64().unwrap_or(0) as usize);
     let svc = build_server(stim, log);
-    let incoming = tokio_stream::StreamExt::chain(tokio_stream::once(Ok::<_, std::io::Error>(s_io)), tokio_stream::pending());
-    let mut sb = tonic::transport::Server::builder();
-    if let Some(ms) = stim["server"]["timeout_ms"].as_u64() { sb = sb.timeout(std::time::Duration::from_millis(ms)); }
-    let srv = tokio::spawn(async move { let _ = sb.add_service(svc).serve_with_incoming(incoming).await; });
+    let srv = if stim["server"]["blackhole"].as_bool().unwrap_or(false) {
+        // a peer that speaks HTTP/2, accepts every request and never answers (and is not tonic: it knows nothing about
+        // grpc-timeout), so only the caller's own timer can end the call
+        tokio::spawn(async move {
+            if let Ok(mut conn) = h2::server::handshake(s_io).await {
+                let mut held = vec![];
+                while let Some(Ok((req, respond))) = conn.accept().await { held.push((req, respond)); }
+            }
+        })
+    } else {
+        let incoming = tokio_stream::StreamExt::chain(tokio_stream::once(Ok::<_, std::io::Error>(s_io)), tokio_stream::pending());
+        let mut sb = tonic::transport::Server::builder();
+        if let Some(ms) = stim["server"]["timeout_ms"].as_u64() { sb = sb.timeout(std::time::Duration::from_millis(ms)); }
+        tokio::spawn(async move { let _ = sb.add_service(svc).serve_with_incoming(incoming).await; })
+    };
     let mut c = Some(c_io);
     let mut ep = tonic::transport::Endpoint::from_static("http://lab.test");
     if let Some(ms) = stim["client"]["endpoint_timeout_ms"].as_u64() { ep = ep.timeout(std::time::Duration::from_millis(ms)); }
